@@ -595,6 +595,13 @@ def _broadcast(repo, res, bl):
 
 
 def _kv(repo, res, bl):
+    try:
+        _kv_body(repo, res, bl)
+    except Undecided as e:
+        res.undecided("R-KV", bl.methods["_setParam"], "abstract-execution", "outside the modelled subset: %s" % e)
+
+
+def _kv_body(repo, res, bl):
     sp = bl.methods["_setParam"]
     types = {"Number": lambda v: isinstance(v, (int, float)) and not isinstance(v, bool), "ODEVariable": lambda v: isinstance(v, Obj) and v.cls == "ODEVariable"}
     summ = {"ode_utils.check_array_type": lambda x: list(x) if isinstance(x, (list, tuple)) else [x], "np.copy": lambda x: ("copy", tuple(x))}
@@ -634,11 +641,23 @@ def _kv(repo, res, bl):
     n_cases += 1
     if kind != "raise":
         bad.append("2 values for the single target ['b'] accepted -> %s" % me.attrs.get("_theta"))
+    # no target: the loss object keeps the values of theta in an array of its own (however the copy is spelt)
+    from ..core.numarr import NumArr as _NA, num_summaries as _ns
     me = Obj("Loss", _num_param=3, _targetParam=None)
-    kind, _ = Abs({}, types, summ, me).run_function(sp.node, {"theta": list(vals)})
+    th_in = _NA([0.5, 1.5, 2.5])
+    summ_n = dict(_ns())
+    summ_n["ode_utils.check_array_type"] = lambda x: x if isinstance(x, _NA) else _NA(list(x))
+    types_n = dict(types)
+    types_n["np.ndarray"] = lambda v: isinstance(v, _NA)
+    kind, _ = Abs({}, types_n, summ_n, me).run_function(sp.node, {"theta": th_in})
     n_cases += 1
-    if not (kind == "return" and me.attrs.get("_theta") == ("copy", tuple(vals))):
-        bad.append("no target -> %s" % (me.attrs.get("_theta"),))
+    kept = me.attrs.get("_theta")
+    if not (kind == "return" and isinstance(kept, _NA) and kept.tolist() == [0.5, 1.5, 2.5]):
+        bad.append("no target -> %s" % (kept,))
+    else:
+        th_in[0] = 9.0
+        if kept.tolist() != [0.5, 1.5, 2.5]:
+            bad.append("no target: the loss object keeps the caller's array itself - a later change of the caller's theta changes the stored parameters")
     me = Obj("Loss", _num_param=3, _targetParam=["a", "b"])
     kind, _ = Abs({}, types, summ, me).run_function(sp.node, {"theta": list(vals)})
     n_cases += 1
